@@ -149,6 +149,8 @@ VARIANTS = {
   fault('unclosed-tag-template', F(HR, 'HtmlRenderer.render_strikethrough', "template = '<del>{}</del>'", "template = '<del>{}<del>'"), 'R-BALANCE'),
   fault('inline-code-raw', F(HR, 'HtmlRenderer.render_inline_code', 'inner = self.escape_html_text(token.children[0].content)', 'inner = token.children[0].content'), 'R-HOLE'),
   fault('alt-text-markup', F(HR, 'HtmlRenderer.render_image', 'self.render_to_plain(token), title)', 'self.render_inner(token), title)'), 'R-HOLE'),
+  fault('plain-text-walk-unescaped', F(HR, 'HtmlRenderer.render_to_plain', "        if token.children is not None:\n            inner = [self.render_to_plain(child) for child in token.children]\n            return ''.join(inner)\n        return html.escape(token.content)",
+                                       "        pieces = []\n        pending = [token]\n        while pending:\n            current = pending.pop()\n            if current.children is None:\n                pieces.append(current.content)\n                continue\n            pending.extend(reversed(tuple(current.children)))\n        return ''.join(pieces)"), ('R-HOLE', 'child.content')),
  ],
  'C09': [
   fault('assembled-lines-rstripped', F(MR, 'MarkdownRenderer.fragments_to_lines', 'yield current_line + lines[0]', 'yield (current_line + lines[0]).rstrip()'), 'R-ASSEMBLY'),
@@ -309,7 +311,9 @@ BENIGN_EXTRA = {
                                       "        prefix = \"> \"\n        max_child_line_length = max_line_length - len(prefix) if max_line_length is not None else None\n"), 'budget via len(prefix)')],
  'C19': [benign('filter-demorgan', F(TOC, 'TocRenderer.render_heading', "        if not (self.omit_title and token.level == 1\n                or token.level > self.depth\n                or any(cond(content) for cond in self.filter_conds)):\n            self._headings.append((token.level, content))",
                                      "        skip = self.omit_title and token.level == 1\n        if not skip and not self.depth < token.level and not any(cond(content) for cond in self.filter_conds):\n            self._headings.append((token.level, content))"), 'De Morgan rewrite')],
- 'C08': [benign('title-escape-temporary', F(HR, 'HtmlRenderer.render_link', "            title = ' title=\"{}\"'.format(html.escape(token.title))", "            escaped_title = html.escape(token.title)\n            title = ' title=\"{}\"'.format(escaped_title)"), 'temporary')],
+ 'C08': [benign('plain-text-explicit-stack', F(HR, 'HtmlRenderer.render_to_plain', "        if token.children is not None:\n            inner = [self.render_to_plain(child) for child in token.children]\n            return ''.join(inner)\n        return html.escape(token.content)",
+                                               "        pieces = []\n        pending = [token]\n        while pending:\n            current = pending.pop()\n            if current.children is None:\n                pieces.append(html.escape(current.content))\n                continue\n            pending.extend(reversed(tuple(current.children)))\n        return ''.join(pieces)"), 'worklist instead of recursion'),
+         benign('title-escape-temporary', F(HR, 'HtmlRenderer.render_link', "            title = ' title=\"{}\"'.format(html.escape(token.title))", "            escaped_title = html.escape(token.title)\n            title = ' title=\"{}\"'.format(escaped_title)"), 'temporary')],
  'C16': [benign('relation-reordered-tests', F(SK, 'eval_tokens', "    if r == 0:\n        token_buffer.append(x)\n        return y\n    if r == 1:\n        return x if x.cls.precedence >= y.cls.precedence else y",
                                               "    if r == 1:\n        return y if y.cls.precedence > x.cls.precedence else x\n    if r == 0:\n        token_buffer.append(x)\n        return y"), 'equivalent reordering')],
 }
